@@ -125,7 +125,7 @@ func (r *ownRun) encInPlace(bi, lo, hi int, fo bool) {
 	key := c.key()
 	var da lorawan.DevAddr
 	copy(da[:], c.bytesN(4))
-	fcnt := c.rnd.Uint32()
+	fcnt := c.edge32()
 	up := c.rnd.Intn(2) == 0
 	var out []byte
 	res, _ := observeFast(func() error {
